@@ -281,6 +281,8 @@ func HarnessC10ClosedChannels() {
 // the other gets nil, and both return.
 func HarnessC10TwoReceiversAndClose() {
 	verifrt.SchedPreemptBeforeChanOps(true)
+	// the receivers may start late (after the send and the close): a wide fairness window
+	verifrt.SchedBounds(2, 200)
 	a := verifrt.Int64()
 	verifrt.Assume(a != 0)
 	env := (&scriptEnv{}).addInt("a", a)
@@ -351,4 +353,37 @@ k`
 		}
 	}
 	verifrt.Reach("done")
+}
+
+// HarnessC04GoStatements (C04): `go` statements, spawn expressions used as
+// statements and defer statements are stack-neutral also when goroutines run.
+func HarnessC04GoStatements() {
+	a := verifrt.Int64()
+	env := (&scriptEnv{}).addInt("a", a)
+	var run *scriptRun
+	switch verifrt.Choose(3) {
+	case 0:
+		run, _ = runConcurrent(`ch := chan(3); for i := 0; i < 3; i++ { go func(v) { ch <- v }(a) }; x := <-ch; y := <-ch; z := <-ch; x + y + z`, env)
+		if run.stage == "ok" {
+			iv, ok := asInt(run.result)
+			verifrt.Assert(ok && iv == 3*a, "values-sent-by-go-statements-arrive")
+		}
+	case 1:
+		run, _ = runConcurrent(`ts := []; for i := 0; i < 3; i++ { spawn(func(v) { return v }, a); ts.append(spawn(func(v) { return v + 1 }, a)) }; ts[0].wait() + ts[2].wait()`, env)
+		if run.stage == "ok" {
+			iv, ok := asInt(run.result)
+			verifrt.Assert(ok && iv == 2*(a+1), "thread-results-arrive")
+		}
+	case 2:
+		run, _ = runConcurrent(`f := func() { ch := chan(1); defer close(ch); go func() { ch <- a }(); return <-ch }; f() + f()`, env)
+		if run.stage == "ok" {
+			iv, ok := asInt(run.result)
+			verifrt.Assert(ok && iv == 2*a, "value-through-a-deferred-close")
+		}
+	}
+	verifrt.Assert(run.stage == "ok", "runs:"+run.stage)
+	if run.stage == "ok" {
+		verifrt.Reach("done")
+		verifrt.Assert(run.machine.sp == 0, "finished-evaluation-leaves-exactly-its-result")
+	}
 }
